@@ -328,6 +328,12 @@ func structures() map[string]*descriptorpb.FileDescriptorProto {
 		add("psm-"+part, []*descriptorpb.DescriptorProto{{Name: str("Foo" + part), Options: psmOpt(&ext_j5pb.PSMOptions{EntityName: "foo"}), Field: []*descriptorpb.FieldDescriptorProto{fld("a", 1, stringT)}}})
 	}
 	add("psm-explicit-part", []*descriptorpb.DescriptorProto{{Name: str("Other"), Options: psmOpt(&ext_j5pb.PSMOptions{EntityName: "foo", EntityPart: schema_j5pb.EntityPart_DATA.Enum()}), Field: []*descriptorpb.FieldDescriptorProto{fld("a", 1, stringT)}}})
+	// both markers on one object: part of an entity and member of an any
+	{
+		both := psmOpt(&ext_j5pb.PSMOptions{EntityName: "foo", EntityPart: schema_j5pb.EntityPart_DATA.Enum()})
+		proto.SetExtension(both, ext_j5pb.E_Message, &ext_j5pb.MessageOptions{Type: &ext_j5pb.MessageOptions_Object{Object: &ext_j5pb.ObjectMessageOptions{AnyMember: []string{"thing", "other"}}}})
+		add("psm-and-any-member", []*descriptorpb.DescriptorProto{{Name: str("FooData"), Options: both, Field: []*descriptorpb.FieldDescriptorProto{fld("a", 1, stringT)}}})
+	}
 	add("psm-legacy-keys-field", []*descriptorpb.DescriptorProto{
 		{Name: str("FooKeys"), Options: psmOpt(&ext_j5pb.PSMOptions{EntityName: "foo"}), Field: []*descriptorpb.FieldDescriptorProto{fld("id", 1, stringT)}},
 		{Name: str("FooThing"), Field: []*descriptorpb.FieldDescriptorProto{fld("keys", 1, msgT("FooKeys"))}},
